@@ -188,9 +188,9 @@ def attrSpecialW (c : WCfg) (nodeAttrs : Option (List Attr)) (s : Bytes) (st : W
         pure (some (st.emit item))
       else pure none
   else if c.lang.id == 1901 then
-    -- OTA settings: `encoder->current_attr->wbxmlCodePage` without a NULL test
+    -- OTA settings: the ICON value (after fix 8c66acc with the NULL test the two branches above have)
     match st.curAttr with
-    | none => .error (.ub "current_attr is NULL (OTA attribute value after a literal attribute start)")
+    | none => pure none
     | some a => if a.page == 0 && a.token == 0x11 then otaIconW nodeAttrs s st else pure none
   else pure none
 
